@@ -90,6 +90,12 @@ func c16Imports(src []byte, shared *goast.DecoratorResolver, rr interface {
 	if err != nil {
 		return "", nil, err
 	}
+	dst.Inspect(df, func(n dst.Node) bool {
+		if id, ok := n.(*dst.Ident); ok && id.Name == "c16AddedRef" {
+			id.Name, id.Path = "Info", "x.com/app/log" // a package whose name clashes with an existing import
+		}
+		return true
+	})
 	keep := dst.Clone(df).(*dst.File)
 	r := decorator.NewRestorerWithImports("example.com/self", rr)
 	var buf bytes.Buffer
@@ -149,7 +155,10 @@ func runC16(c *fw.Ctx) {
 	// one with a dot-import (resolver error path)
 	clash := "package p\n\nimport (\n\t\"a/x/log\"\n\t\"b/y/log\"\n\tlog2 \"c/log\"\n\t\"fmt\"\n)\n\nfunc f() {\n\tlog.A()\n\tlog.B()\n\tlog2.C()\n\tfmt.Println()\n}\n"
 	dot := "package p\n\nimport (\n\t. \"fmt\"\n\t\"os\"\n)\n\nfunc f() {\n\tPrintln(os.Args)\n}\n"
-	for _, s := range []struct{ n, s string }{{"synthetic/clash", clash}, {"synthetic/dot", dot}} {
+	// conflicting names next to nameless (blank / dot-free) imports, and a reference to a package that
+	// is not imported yet (the restorer has to add it and resolve the clash)
+	clashBlank := "package p\n\nimport (\n\t_ \"embed\"\n\t\"log\"\n\t_ \"net/http/pprof\"\n\tlog3 \"z/log\"\n)\n\nfunc f() {\n\tlog.A()\n\tlog3.B()\n\tc16AddedRef()\n}\n"
+	for _, s := range []struct{ n, s string }{{"synthetic/clash", clash}, {"synthetic/dot", dot}, {"synthetic/clash-with-blank", clashBlank}} {
 		ref := &c16Ref{name: s.n, src: []byte(s.s)}
 		b, _ := rtParsePrint(ref.src)
 		ref.plain = string(b)
